@@ -610,6 +610,315 @@ def _callee_name(call):
     return rd.get('name') if rd.get('kind') == 'FunctionDecl' else None
 
 
+def _scalarise_struct_params(units, notes):
+    """A local struct that only bundles existing variables (`m.terms = terms; ...; f(.., &m)`) and is handed on by pointer is
+    read as if the bundled variables were passed themselves: every function with a parameter of that struct-pointer type gets
+    one parameter per member (named after the bundled variable), `p->member` becomes that parameter, call sites pass the
+    members, the bundle disappears.  Parameter lists that then carry the reference's names are put in the reference order."""
+    from .c_reference import REFERENCE
+    allf = [fn for u, data in units for fn in data['funcs']]
+
+    def params_of(fn):
+        return [p for p in fn.get('inner', []) if p.get('kind') == 'ParmVarDecl']
+
+    def body_of(fn):
+        b = [c for c in fn.get('inner', []) if c.get('kind') == 'CompoundStmt']
+        return b[0] if b else None
+
+    def ref_to(decl):
+        return dict(kind='DeclRefExpr', type=decl.get('type', {}), valueCategory='lvalue',
+                    referencedDecl=dict(id=decl['id'], kind=decl['kind'], name=decl['name'], type=decl.get('type', {})))
+    done = False
+    for A in allf:
+        bA = body_of(A)
+        if bA is None:
+            continue
+        for S in [x for x in _walk_nodes(bA) if x.get('kind') == 'VarDecl' and not x.get('inner')]:
+            T = S['type']['qualType'].replace('struct ', '').strip()
+            if '*' in T or T in ('int', 'long', 'double', 'float', 'char') or ' ' in T and not T.endswith('_t'):
+                continue
+            uses = [x for x in _walk_nodes(bA) if x.get('kind') == 'DeclRefExpr' and (x.get('referencedDecl') or {}).get('id') == S['id']]
+            if not uses:
+                continue
+            fields, fstmts, addr_uses = {}, [], 0
+            okS = True
+            avars = {x['name']: x for x in _walk_nodes(A) if x.get('kind') in ('ParmVarDecl', 'VarDecl') and x.get('name')}
+            for x in _walk_nodes(bA):
+                if x.get('kind') == 'BinaryOperator' and x.get('opcode') == '=':
+                    l = strip(x['inner'][0])
+                    if l.get('kind') == 'MemberExpr' and not l.get('isArrow') and strip(l['inner'][0]).get('kind') == 'DeclRefExpr' \
+                            and strip(l['inner'][0])['referencedDecl'].get('id') == S['id']:
+                        r = strip(x['inner'][1])
+                        if l['name'] in fields or r.get('kind') != 'DeclRefExpr' or r['referencedDecl'].get('name') not in avars:
+                            okS = False
+                        else:
+                            fields[l['name']] = avars[r['referencedDecl']['name']]
+                            fstmts.append(x)
+                if x.get('kind') == 'UnaryOperator' and x.get('opcode') == '&':
+                    o = strip(x['inner'][0])
+                    if o.get('kind') == 'DeclRefExpr' and o['referencedDecl'].get('id') == S['id']:
+                        addr_uses += 1
+            if not okS or not fields or addr_uses + len(fstmts) != len(uses):
+                continue
+            # functions that take a pointer to this struct type
+            order = list(fields)
+            newp = {}          # function name -> (position, old param id, [new ParmVarDecl])
+            for F in allf:
+                ps = params_of(F)
+                for k, q in enumerate(ps):
+                    qt = q['type']['qualType'].replace('const ', '').replace('struct ', '').replace(' ', '')
+                    if qt == T.replace(' ', '') + '*':
+                        decls = [dict(kind='ParmVarDecl', id='sc_%s_%s' % (F['name'], f), name=fields[f]['name'], type=fields[f].get('type', {})) for f in order]
+                        newp[F['name']] = (k, q['id'], decls)
+            if not newp:
+                continue
+
+            def members(F):
+                k, qid, decls = newp[F['name']]
+                by_f = dict(zip(order, decls))
+
+                def rw(n):
+                    if not isinstance(n, dict):
+                        return n
+                    if n.get('kind') == 'MemberExpr' and n.get('isArrow'):
+                        b0 = strip(n['inner'][0])
+                        if b0.get('kind') == 'DeclRefExpr' and (b0.get('referencedDecl') or {}).get('id') == qid and n.get('name') in by_f:
+                            return ref_to(by_f[n['name']])
+                    if n.get('inner'):
+                        n = dict(n)
+                        n['inner'] = [rw(c) for c in n['inner']]
+                    return n
+                return rw
+            for F in allf:
+                if F['name'] not in newp or body_of(F) is None:
+                    continue
+                k, qid, decls = newp[F['name']]
+                nb = members(F)(body_of(F))
+                ps = params_of(F)
+                F['inner'] = [c for c in F['inner'] if c.get('kind') not in ('ParmVarDecl', 'CompoundStmt')] + ps[:k] + decls + ps[k + 1:] + [nb]
+            # call sites
+            for F in allf:
+                bF = body_of(F)
+                if bF is None:
+                    continue
+                mine = newp.get(F['name'])
+                for c in _walk_nodes(bF):
+                    if c.get('kind') != 'CallExpr' or _callee_name(c) not in newp:
+                        continue
+                    k = newp[_callee_name(c)][0]
+                    args = c['inner'][1:]
+                    if k >= len(args):
+                        continue
+                    a0 = strip(args[k])
+                    repl = None
+                    if a0.get('kind') == 'UnaryOperator' and a0.get('opcode') == '&' and strip(a0['inner'][0]).get('kind') == 'DeclRefExpr' \
+                            and strip(a0['inner'][0])['referencedDecl'].get('id') == S['id']:
+                        repl = [ref_to(fields[f]) for f in order]
+                    elif a0.get('kind') == 'DeclRefExpr' and mine is not None and a0['referencedDecl'].get('id') == mine[1]:
+                        repl = [ref_to(d) for d in mine[2]]
+                    if repl is not None:
+                        c['inner'] = [c['inner'][0]] + args[:k] + repl + args[k + 1:]
+            # the bundle itself
+            drop = {id(x) for x in fstmts}
+
+            def prune(n):
+                if isinstance(n, dict) and n.get('inner'):
+                    kids = []
+                    for c in n['inner']:
+                        c0 = strip(c) if isinstance(c, dict) else c
+                        if isinstance(c0, dict) and id(c0) in drop:
+                            continue
+                        if isinstance(c, dict) and c.get('kind') == 'DeclStmt' and all(v.get('id') == S['id'] for v in c.get('inner', [])):
+                            continue
+                        kids.append(prune(c))
+                    n['inner'] = kids
+                return n
+            prune(bA)
+            notes.append('struct %s of %s read as its bundled variables %s' % (S['name'], A['name'], [fields[f]['name'] for f in order]))
+            done = True
+            break
+    if not done:
+        return
+    # reference order of the parameters
+    for F in allf:
+        ref = REFERENCE.get(F['name'])
+        if ref is None or body_of(F) is None:
+            continue
+        ps = params_of(F)
+        names = [p_['name'] for p_ in ps]
+        rnames = [n_ for n_, _ in ref['params']]
+        if names == rnames or sorted(names) != sorted(rnames):
+            continue
+        perm = [names.index(n_) for n_ in rnames]
+        F['inner'] = [c for c in F['inner'] if c.get('kind') not in ('ParmVarDecl', 'CompoundStmt')] + [ps[i_] for i_ in perm] + [body_of(F)]
+        for G in allf:
+            bG = body_of(G)
+            if bG is None:
+                continue
+            for c in _walk_nodes(bG):
+                if c.get('kind') == 'CallExpr' and _callee_name(c) == F['name'] and len(c['inner']) - 1 == len(perm):
+                    a = c['inner'][1:]
+                    c['inner'] = [c['inner'][0]] + [a[i_] for i_ in perm]
+
+
+def _unspecialise_params(units, notes):
+    """A function of the reference tree whose parameter list was specialised - it is now handed `n[i]`, a row pointer
+    `a + index[i]` or a pointer to a struct that bundles the arrays, where it used to be handed the arrays and the index -
+    is read in the reference form when it has exactly one call site: every specialised parameter is replaced in the body by
+    the caller's argument expression (struct members by the expression the caller stored into that member), the caller's
+    variables that occur in those expressions become parameters (or are identified with the parameter they are passed as),
+    and the call site passes them.  Done only when the resulting parameter names are exactly the reference's."""
+    from .c_reference import REFERENCE
+    funcs = {}
+    for u, data in units:
+        for fn in data['funcs']:
+            funcs[fn['name']] = (u, fn)
+
+    def params_of(fn):
+        return [p for p in fn.get('inner', []) if p.get('kind') == 'ParmVarDecl']
+
+    def body_of(fn):
+        b = [c for c in fn.get('inner', []) if c.get('kind') == 'CompoundStmt']
+        return b[0] if b else None
+
+    def ref_to(decl):
+        return dict(kind='DeclRefExpr', type=decl.get('type', {}), valueCategory='lvalue',
+                    referencedDecl=dict(id=decl['id'], kind=decl['kind'], name=decl['name'], type=decl.get('type', {})))
+    for name, (u, fn) in list(funcs.items()):
+        ref = REFERENCE.get(name)
+        if ref is None or body_of(fn) is None:
+            continue
+        cur = params_of(fn)
+        if [p['type']['qualType'].replace('const ', '') for p in cur] == [t for _, t in ref['params']]:
+            continue
+        sites = []
+        for cname, (cu, cfn) in funcs.items():
+            if cfn is fn or body_of(cfn) is None:
+                continue
+            for x in _walk_nodes(body_of(cfn)):
+                if x.get('kind') == 'CallExpr' and _callee_name(x) == name:
+                    sites.append((cfn, x))
+        if len(sites) != 1:
+            continue
+        caller, call = sites[0]
+        args = call['inner'][1:]
+        if len(args) != len(cur):
+            continue
+        cvars = {}
+        for x in _walk_nodes(caller):
+            if x.get('kind') in ('ParmVarDecl', 'VarDecl') and x.get('name'):
+                cvars.setdefault(x['name'], x)
+        passthru, special, structs = {}, [], {}
+        ok = True
+        for p_, a_ in zip(cur, args):
+            a0 = strip(a_)
+            if a0.get('kind') == 'DeclRefExpr' and (a0.get('referencedDecl') or {}).get('name') in cvars \
+                    and (a0['referencedDecl']['name'] not in passthru):
+                passthru[a0['referencedDecl']['name']] = p_
+                continue
+            if a0.get('kind') == 'UnaryOperator' and a0.get('opcode') == '&' and strip(a0['inner'][0]).get('kind') == 'DeclRefExpr':
+                sname = strip(a0['inner'][0])['referencedDecl']['name']
+                fields, stmts_ = {}, []
+                for x in _walk_nodes(body_of(caller)):
+                    if x.get('kind') == 'BinaryOperator' and x.get('opcode') == '=':
+                        l = strip(x['inner'][0])
+                        if l.get('kind') == 'MemberExpr' and not l.get('isArrow') and strip(l['inner'][0]).get('kind') == 'DeclRefExpr' \
+                                and strip(l['inner'][0])['referencedDecl']['name'] == sname:
+                            if l['name'] in fields:
+                                ok = False
+                            fields[l['name']] = x['inner'][1]
+                            stmts_.append(x)
+                if not fields:
+                    ok = False
+                structs[p_['id']] = (sname, fields, stmts_)
+                special.append((p_, None))
+                continue
+            special.append((p_, a_))
+        if not ok or not special:
+            continue
+        exprs = [a_ for p_, a_ in special if a_ is not None] + [e for sid in structs for e in structs[sid][1].values()]
+        needed = []
+        for e in exprs:
+            for x in _walk_nodes(e):
+                if x.get('kind') == 'DeclRefExpr':
+                    rd = x.get('referencedDecl') or {}
+                    if rd.get('kind') in ('ParmVarDecl', 'VarDecl') and rd.get('name') in cvars and rd['name'] not in needed:
+                        needed.append(rd['name'])
+        newp = [n_ for n_ in needed if n_ not in passthru]
+        final = {p_['name'] for p_ in passthru.values()} | set(newp)
+        if final != {n_ for n_, _ in ref['params']}:
+            continue
+        # new parameter declarations of the callee
+        decl_of = {}
+        for i_, n_ in enumerate(newp):
+            d = cvars[n_]
+            decl_of[n_] = dict(kind='ParmVarDecl', id='unspec_%s_%d' % (name, i_), name=n_, type=d.get('type', {}))
+        for cn, p_ in passthru.items():
+            decl_of[cn] = p_
+
+        def into_callee(e):
+            if not isinstance(e, dict):
+                return e
+            if e.get('kind') == 'DeclRefExpr':
+                rd = e.get('referencedDecl') or {}
+                if rd.get('name') in decl_of and rd.get('kind') in ('ParmVarDecl', 'VarDecl'):
+                    return ref_to(decl_of[rd['name']])
+            if e.get('inner'):
+                e = dict(e)
+                e['inner'] = [into_callee(c) for c in e['inner']]
+            return e
+        sub = {p_['id']: into_callee(_deep(a_)) for p_, a_ in special if a_ is not None}
+        fsub = {sid: {f: into_callee(_deep(e)) for f, e in structs[sid][1].items()} for sid in structs}
+
+        def rewrite(n):
+            if not isinstance(n, dict):
+                return n
+            if n.get('kind') == 'MemberExpr' and n.get('isArrow'):
+                b0 = strip(n['inner'][0])
+                pid = (b0.get('referencedDecl') or {}).get('id') if b0.get('kind') == 'DeclRefExpr' else None
+                if pid in fsub and n.get('name') in fsub[pid]:
+                    return dict(kind='ParenExpr', inner=[_deep(fsub[pid][n['name']])], type=n.get('type', {}))
+            if n.get('kind') == 'DeclRefExpr':
+                pid = (n.get('referencedDecl') or {}).get('id')
+                if pid in sub:
+                    return dict(kind='ParenExpr', inner=[_deep(sub[pid])], type=n.get('type', {}))
+            if n.get('inner'):
+                n = dict(n)
+                n['inner'] = [rewrite(c) for c in n['inner']]
+            return n
+        nb = rewrite(body_of(fn))
+        by_name = {p_['name']: p_ for p_ in passthru.values()}
+        by_name.update({n_: decl_of[n_] for n_ in newp})
+        new_params = [by_name[n_] for n_, _ in ref['params']]
+        fn['inner'] = [c for c in fn['inner'] if c.get('kind') not in ('ParmVarDecl', 'CompoundStmt')] + new_params + [nb]
+        # the call site passes the reference parameters; struct bundles of the caller disappear
+        inv = {p_['name']: cn for cn, p_ in passthru.items()}
+        new_args = []
+        for n_, _ in ref['params']:
+            cn = inv.get(n_, n_)
+            new_args.append(ref_to(cvars[cn]))
+        call['inner'] = [call['inner'][0]] + new_args
+        drop = {id(x) for sid in structs for x in structs[sid][2]}
+        snames = {structs[sid][0] for sid in structs}
+        if drop or snames:
+            def prune(n):
+                if not isinstance(n, dict):
+                    return n
+                if n.get('inner'):
+                    kids = []
+                    for c in n['inner']:
+                        c0 = strip(c) if isinstance(c, dict) else c
+                        if isinstance(c0, dict) and id(c0) in drop:
+                            continue
+                        if isinstance(c, dict) and c.get('kind') == 'DeclStmt' and all(v.get('name') in snames for v in c.get('inner', [])):
+                            continue
+                        kids.append(prune(c))
+                    n['inner'] = kids
+                return n
+            prune(body_of(caller))
+        notes.append('read %s with the reference parameter list (specialised parameters replaced by the call site\'s expressions)' % name)
+
+
 def _inline_new_c_helpers(units, notes):
     """A static helper that the reference tree does not have (see c_reference.py) is the product of an extract-function
     refactoring: its body is put back at its call sites in the model - `h(a);` and `x = h(a);` / `T x = h(a);` statements
@@ -698,6 +1007,69 @@ def _inline_new_c_helpers(units, notes):
             rexpr = r['inner'][0] if r.get('inner') else None
         return stmts, rexpr
 
+    def outptr_copyout(stmts):
+        """`*(&X) = L;` with L a local of the inlined helper (an out-parameter handed back): the local IS the caller's X -
+        its declaration becomes an assignment to X, its uses become X, the hand-back statement disappears."""
+        def deref_of_addr(e):
+            e = strip(e)
+            if isinstance(e, dict) and e.get('kind') == 'UnaryOperator' and e.get('opcode') == '*':
+                a = strip(e['inner'][0])
+                if isinstance(a, dict) and a.get('kind') == 'UnaryOperator' and a.get('opcode') == '&':
+                    x = strip(a['inner'][0])
+                    if isinstance(x, dict) and x.get('kind') == 'DeclRefExpr':
+                        return x
+            return None
+        local_ids = {y['id'] for x in stmts for y in _walk_nodes(x) if y.get('kind') == 'VarDecl'}
+        for st in list(stmts):
+            s0 = strip(st)
+            if not (isinstance(s0, dict) and s0.get('kind') == 'BinaryOperator' and s0.get('opcode') == '='):
+                continue
+            X = deref_of_addr(s0['inner'][0])
+            r0 = strip(s0['inner'][1])
+            rid = (r0.get('referencedDecl') or {}).get('id') if isinstance(r0, dict) and r0.get('kind') == 'DeclRefExpr' else None
+            if X is None or rid not in local_ids:
+                continue
+
+            def retarget(n):
+                if not isinstance(n, dict):
+                    return n
+                if n is st:
+                    return dict(kind='CompoundStmt', inner=[], _splice=True)
+                if n.get('kind') == 'DeclStmt' and any(v.get('id') == rid for v in n.get('inner', [])):
+                    keep = [v for v in n['inner'] if v.get('id') != rid]
+                    mine = [v for v in n['inner'] if v.get('id') == rid][0]
+                    res = []
+                    if keep:
+                        m = dict(n)
+                        m['inner'] = keep
+                        res.append(m)
+                    if mine.get('inner'):
+                        res.append(dict(kind='BinaryOperator', opcode='=', inner=[_deep(X), retarget(mine['inner'][0])]))
+                    return dict(kind='CompoundStmt', inner=res, _splice=True)
+                if n.get('kind') == 'DeclRefExpr' and (n.get('referencedDecl') or {}).get('id') == rid:
+                    return _deep(X)
+                if n.get('inner'):
+                    n = dict(n)
+                    kids = []
+                    for c in n['inner']:
+                        c2 = retarget(c)
+                        if isinstance(c2, dict) and c2.get('_splice'):
+                            kids += c2['inner']
+                        else:
+                            kids.append(c2)
+                    n['inner'] = kids
+                return n
+            new_stmts = []
+            for x in stmts:
+                x2 = retarget(x)
+                if isinstance(x2, dict) and x2.get('_splice'):
+                    new_stmts += x2['inner']
+                else:
+                    new_stmts.append(x2)
+            stmts = new_stmts
+            local_ids.discard(rid)
+        return stmts
+
     inlined = set()
 
     def process_expr(n):
@@ -745,6 +1117,7 @@ def _inline_new_c_helpers(units, notes):
             if h in new and h != caller and shape(funcs[h][1]) in ('tail', 'expr') \
                     and len(call['inner']) - 1 == len(params_of(funcs[h][1])):
                 stmts, rexpr = instantiate(funcs[h][1], call['inner'][1:])
+                stmts = outptr_copyout(stmts)
                 if kind == 'stmt':
                     out += stmts
                     inlined.add(h)
@@ -1273,6 +1646,8 @@ class CProgram:
                         if isinstance(rd, dict) and rd.get('kind') == 'FunctionDecl' and rd.get('name') in self.fn_renames:
                             rd['name'] = self.fn_renames[rd['name']]
         _inline_new_c_helpers(self._units, self.notes)
+        _scalarise_struct_params(self._units, self.notes)
+        _unspecialise_params(self._units, self.notes)
         for u, data in self._units:
             for fn in data['funcs']:
                 f = CFunc(fn, u)
